@@ -1064,6 +1064,12 @@ def run(chk):
         chk.ob("T0-typestate-model", cls, "Grid.__init__/setLayout/saveGridValues/freeGridSave/restoreGridValues", None,
                f"cannot decide: {e}", file=U.GRID, func="Grid")
     alloc_agreement(chk, mod)
+    # the bookkeeping of ONE grid (which block holds the data / is scratch / protects the save) is not kept in an object every Grid shares
+    from .C01 import shared_container_aliasing, engine
+    engine(chk, "T7-instance-owned-state", cls, "bookkeeping of one Grid kept in a container shared by all Grids", shared_container_aliasing,
+           chk, mod, "Grid", "T7-instance-owned-state", U.GRID,
+           "a setLayout / restoreGridValues of one Grid re-labels the blocks of every other Grid, whose view `_f` still points to the old "
+           "block: its next layout change or save reads a stale block", file=U.GRID, func="Grid")
     driver_protocol(chk)
     # the contract of LayoutManager.transpose that the model relies on is discharged here as well
     from ..resolve import Program
